@@ -125,6 +125,12 @@ func cmdCheck(args []string) int {
 		if b.Flags["trusted"] {
 			continue
 		}
+		if b.Kind == "lemma" {
+			x := e.runLemma(b)
+			units = append(units, x)
+			obls = append(obls, x.obls...)
+			continue
+		}
 		pi, fd, lit, err := e.bind(b)
 		if err != nil {
 			bindErrs = append(bindErrs, err.Error())
